@@ -61,6 +61,15 @@ def toUint (i : Int) : Nat := (i % 2 ^ 64).toNat
 
 /-- `/` and `%` on `int` truncate toward zero. -/
 def idiv (a b : Int) : Int := Int.tdiv a b
+
+/-- `a + b` on `uint`: wraps modulo 2^64. -/
+def uadd (a b : Nat) : Nat := (a + b) % 2 ^ 64
+
+/-- `int64` (and, on the platforms servitor runs on, `int`) arithmetic wraps. -/
+def wrap64 (x : Int) : Int := (x + 2 ^ 63) % 2 ^ 64 - 2 ^ 63
+
+/-- Placeholder the translators leave where they met an expression they do not understand. -/
+def untranslatable (_ : String) : Int := 0
 def irem (a b : Int) : Int := Int.tmod a b
 
 /-- `xs[k:]`. -/
